@@ -179,7 +179,8 @@ def load(R):
     R.attr("__package__", TObj())
     for n_, (a_, r_) in dict(rule_hash_of=([TObj()], TObj()), py_str=([TObj()], TStr)).items():
         R.uf(n_, a_, r_)
-    R.external("inspect.getmodule", returns=TObj("nn:module"), ensures=[])
+    R.uf("module_of", [TObj()], TObj())
+    R.external("inspect.getmodule", returns=TObj("nn:module"), ensures=["same(result, module_of(arg0))"])
 
     def mfh_rule(ex, args, kwargs):
         return VObj(ex.fresh_obj("MementoFunctionHashRule"), "MementoFunctionHashRule")
@@ -189,6 +190,25 @@ def load(R):
         """collect_transitive_dependencies(result=set, ...): fills the set with the collected rules -- an arbitrary finite set (ghost 'rules');
         which rules belong to it is C14's (unclaimed) subject, what is done with the set is proved here."""
         tgt = kwargs.get("result")
+        # C14 ("plain helper functions of the same package"): the collection is scoped to THE package of the function's module as the import system
+        # knows it -- module.__package__ -- and to nothing else (a package name derived from the dotted module name differs for __main__, for a
+        # package's own __init__ module, for modules run as scripts)
+        scope = kwargs.get("package_scope")
+        src = ex.get_attr(ex.st.env["self"], "src_fn") if "self" in ex.st.env else None
+        if scope is not None and src is not None and isinstance(scope, VCont):
+            sc = ex.cont(scope)
+            pk = z3.Function("attr___package__", ObjSort, ObjSort)(ufs_all()["module_of"](ex.box(src)))
+            ok = z3.BoolVal(False)
+            if isinstance(sc, SetV) and sc.ty.e is TStr:
+                # a set of strings: its only member must be the string module.__package__ is
+                x = ex.fresh("scope_member", z3.StringSort())
+                bs = z3.Function("box_str", z3.StringSort(), ObjSort)
+                ok = z3.And(sc.count == 1, z3.Implies(sc.mem[x], bs(x) == pk))
+            elif isinstance(sc, SetV):
+                x = ex.fresh("scope_member", ObjSort)
+                ok = z3.And(sc.mem[pk], z3.Implies(sc.mem[x], x == pk))
+            ex.oblige("dependency-collection-is-scoped-to-the-package-of-the-function's-module", ok, kind="post",
+                      info={"clause": "package_scope == {inspect.getmodule(self.src_fn).__package__}", "tags": ["C03", "C14"]})
         c = ex.materialize(tgt, TSet(TObj("nn:HashRule")))
         mem2 = ex.fresh("collected", c.mem.sort())
         cnt = ex.fresh("ncollected", z3.IntSort())
